@@ -146,18 +146,18 @@ theorem countColons_mono (s : Bytes) (m : Nat) : countColons s (m + 1) ≤ count
 
 theorem strtolU32_nil : strtolU32 0 [] = (0, []) := by decide
 
-theorem xyLoop_nil (cap fuel m : Nat) (acc : List ILoop) : xyLoop cap fuel [] m acc = .fail := by
+theorem xyLoop_nil (cap total fuel m nbs : Nat) (acc : List ILoop) : xyLoop cap total fuel [] m nbs acc = .fail := by
   cases fuel with
   | zero => simp [xyLoop]
   | succ f => simp [xyLoop, strtolU32_nil]
 
-theorem xyLoop_safe (cap : Nat) : ∀ (fuel : Nat) (s : Bytes) (m : Nat) (acc : List ILoop),
-    acc.length + countColons s m < cap → xyLoop cap fuel s m acc ≠ .err .loopsOverflow := by
+theorem xyLoop_safe (cap total : Nat) : ∀ (fuel : Nat) (s : Bytes) (m nbs : Nat) (acc : List ILoop),
+    acc.length + countColons s m < cap → xyLoop cap total fuel s m nbs acc ≠ .err .loopsOverflow := by
   intro fuel
   induction fuel with
-  | zero => intro s m acc _; simp [xyLoop]
+  | zero => intro s m nbs acc _; simp [xyLoop]
   | succ f ih =>
-    intro s m acc hinv
+    intro s m nbs acc hinv
     unfold xyLoop
     generalize hst : strtolU32 0 s = p
     obtain ⟨step, t2⟩ := p
@@ -178,44 +178,46 @@ theorem xyLoop_safe (cap : Nat) : ∀ (fuel : Nat) (s : Bytes) (m : Nat) (acc : 
             · split
               · simp
               · split
-                · -- the write loops[acc.length]
-                  rename_i hcap
-                  have : countColons s m ≥ 0 := Nat.zero_le _
-                  omega
+                · simp
                 · split
-                  · simp
+                  · -- the write loops[acc.length]
+                    rename_i hcap
+                    have : countColons s m ≥ 0 := Nat.zero_le _
+                    omega
                   · split
                     · simp
-                    · -- continue after a ':'
-                      rename_i hstep hne hc3 hnb hcap hclose hcons
-                      have hsuf3 : t3 <:+ t2' := by have := strtolU32_suffix 0 t2'; rw [hst2] at this; exact this
-                      have hsuf2 : (42 :: t2') <:+ s := by have := strtolU32_suffix 0 s; rw [hst] at this; exact this
-                      have hsuf : t3 <:+ s := (hsuf3.trans (List.suffix_cons 42 t2')).trans hsuf2
-                      cases t3 with
-                      | nil => simp only [List.drop_nil]; rw [xyLoop_nil]; simp
-                      | cons c r =>
-                        have hc : c = 58 := by
-                          simp only [List.head?_cons, Option.isSome_some, Bool.true_and] at hc3
-                          simp only [List.head?_cons, Option.some.injEq] at hclose
-                          by_cases h58 : c = 58
-                          · exact h58
-                          · exfalso; apply hc3
-                            have h41 : c ≠ 41 := fun h => hclose (Or.inl h)
-                            have h32 : c ≠ 32 := fun h => hclose (Or.inr h)
-                            simp [h58, h41, h32]
-                        subst hc
-                        obtain ⟨pre, hpre⟩ := hsuf
-                        have hlen : s.length = pre.length + (r.length + 1) := by rw [← hpre]; simp
-                        simp only [List.length_cons] at hcons
-                        simp only [List.drop_succ_cons, List.drop_zero, List.length_cons]
-                        apply ih
-                        have hcons' : pre.length + 1 < m := by omega
-                        have hcc := countColons_append_colon pre r m (by omega)
-                        rw [hpre] at hcc
-                        have e1 : s.length - (r.length + 1) + 1 = pre.length + 1 := by omega
-                        rw [e1]
-                        simp only [List.length_append, List.length_cons, List.length_nil]
-                        omega
+                    · split
+                      · simp
+                      · -- continue after a ':'
+                        rename_i hstep hne hc3 hnb hnbs hcap hclose hcons
+                        have hsuf3 : t3 <:+ t2' := by have := strtolU32_suffix 0 t2'; rw [hst2] at this; exact this
+                        have hsuf2 : (42 :: t2') <:+ s := by have := strtolU32_suffix 0 s; rw [hst] at this; exact this
+                        have hsuf : t3 <:+ s := (hsuf3.trans (List.suffix_cons 42 t2')).trans hsuf2
+                        cases t3 with
+                        | nil => simp only [List.drop_nil]; rw [xyLoop_nil]; simp
+                        | cons c r =>
+                          have hc : c = 58 := by
+                            simp only [List.head?_cons, Option.isSome_some, Bool.true_and] at hc3
+                            simp only [List.head?_cons, Option.some.injEq] at hclose
+                            by_cases h58 : c = 58
+                            · exact h58
+                            · exfalso; apply hc3
+                              have h41 : c ≠ 41 := fun h => hclose (Or.inl h)
+                              have h32 : c ≠ 32 := fun h => hclose (Or.inr h)
+                              simp [h58, h41, h32]
+                          subst hc
+                          obtain ⟨pre, hpre⟩ := hsuf
+                          have hlen : s.length = pre.length + (r.length + 1) := by rw [← hpre]; simp
+                          simp only [List.length_cons] at hcons
+                          simp only [List.drop_succ_cons, List.drop_zero, List.length_cons]
+                          apply ih
+                          have hcons' : pre.length + 1 < m := by omega
+                          have hcc := countColons_append_colon pre r m (by omega)
+                          rw [hpre] at hcc
+                          have e1 : s.length - (r.length + 1) + 1 = pre.length + 1 := by omega
+                          rw [e1]
+                          simp only [List.length_append, List.length_cons, List.length_nil]
+                          omega
       · simp
 
 theorem tyLoop_safe (levels : List Level) (cap len : Nat) : ∀ (fuel : Nat) (s : Bytes) (off : Nat) (acc : List Nat) (log : Log),
@@ -303,7 +305,7 @@ theorem processIndexes_loops_safe (levels : List Level) (ix : Idx) (total : Nat)
       · simp only
         split
         · -- x*y notation
-          have hsafe := xyLoop_safe (1 + countColons s len + 1) (s.length + 1) s len [] (by simp; omega)
+          have hsafe := xyLoop_safe (1 + countColons s len + 1) total (s.length + 1) s len 1 [] (by simp; omega)
           split
           · simp
           · rename_i e he
